@@ -762,7 +762,13 @@ def _like_kind(a, dtype):
     return 'f' if a.dtype == object else a.dtype
 
 
-def zeros_like(a, dtype=None, **kw): return _filled(_np.shape(a), _like_kind(a, dtype), 0)
+def zeros_like(a, dtype=None, **kw):
+    if dtype is not None and _kind(dtype) == 'i' and isinstance(a, _np.ndarray) and a.dtype == object and _contains_sym(a):
+        # an integer array shaped like symbolic data usually receives values computed from it (floor, round): object storage of ints
+        r = _np.empty(_np.shape(a), dtype=object)
+        r[...] = 0
+        return r.view(SymArray)
+    return _filled(_np.shape(a), _like_kind(a, dtype), 0)
 def ones_like(a, dtype=None, **kw): return _filled(_np.shape(a), _like_kind(a, dtype), 1)
 def empty_like(a, dtype=None, **kw): return _filled(_np.shape(a), _like_kind(a, dtype), UNINIT)
 def full_like(a, v, dtype=None, **kw): return _filled(_np.shape(a), _like_kind(a, dtype), v)
